@@ -8,22 +8,27 @@ TRUST = ("Trusted: Lean 4.33 kernel (axioms propext, Classical.choice, Quot.soun
          "differential harness under tools/ (generators, canonicaliser), the hook verif_rational. The Lean model is hand-written; "
          "what ties it to /repo is the regenerated Gen/*.lean under the theorems and the model-vs-binary correspondence on every run.")
 
-CHECKS = {
- "C03": dict(
-   text="Machine-checked proof (Lean 4) that the value_t/balance_t/amount_t dispatch preserves the exact rational denotation of "
-        "every operand for + - * / neg and that ==/< decide the order of exact quantities (24 theorems, all operands, no size bound); "
-        "the dispatch cells are re-extracted from value.cc on every run (C03.cells_pinned, Gen.Consts flags) and the model is run "
-        "against the rebuilt binary on every ordered type pair x operator plus random trees; an independent Fraction oracle on "
-        "ledger's own answers supplies the failing input when a proof or the tie breaks.",
-   note=TRUST + " Modelled, not verified: GMP is exact; long cells on Int (no overflow); INTEGER/INTEGER is C long division by design. "
-        "Known findings (known_findings.json): INTEGER/AMOUNT operand swap (pinned by a unit test), zero components kept by balance +=.",
-   technique="Lean 4 proof of denotation homomorphism + regenerated dispatch table + differential model/binary check",
-   ref="DESIGN.md §5 C03"),
-}
+CHECKS = {}
 
 NOT_YET = {}
 
+def collect():
+    """tools/props/cXX.py may define MANIFEST = dict(text=, note=, technique=, ref=[, category=])."""
+    import sys, importlib, glob
+    sys.path.insert(0, os.path.join(ROOT, "tools"))
+    sys.path.insert(0, os.path.join(ROOT, "tools", "props"))
+    for p in sorted(glob.glob(os.path.join(ROOT, "tools", "props", "c[0-9]*.py"))):
+        name = os.path.basename(p)[:-3]
+        mod = importlib.import_module(name)
+        m = getattr(mod, "MANIFEST", None)
+        if m:
+            d = dict(m)
+            d["note"] = TRUST + " " + d.get("note", "")
+            CHECKS[name.upper()] = d
+
+
 def main():
+    collect()
     props = [json.loads(l) for l in open(os.path.join(ROOT, "properties.jsonl"))]
     checks = []
     na = []
